@@ -233,7 +233,7 @@ TrNow ==
        [] OTHER -> Stutter
 
 TrTLock   == IsEv("TLock") /\ IF InCreate(A) THEN KTLock(A) ELSE TLock(A)
-TrTUnlock == IsEv("TUnlock") /\ IF InCreate(A) THEN KTUnlock(A) ELSE TUnlock(A)
+TrTUnlock == IsEv("TUnlock") /\ IF InCreate(A) THEN KTUnlock(A) ELSE IF pc[A] = "c_dlock" THEN LockTimeout(A) ELSE TUnlock(A)
 TrLockTry == IsEv("LockTry") /\ IF ev.ok THEN (IF InCreate(A) THEN KDLock(A) ELSE DLock(A)) ELSE ((Backend = "local" => lockHolder \notin {"none", A}) /\ Stutter)     \* (S3: an attempt is several requests; a failed one changes nothing)
 TrDUnlock == IsEv("DUnlock") /\ (IF InCreate(A) THEN KDUnlock(A) ELSE DUnlock(A))
              /\ (("wiped" \in DOMAIN ev /\ ev.wiped) <=> (lockHolder \notin {A, "none"} /\ lockHolder' = "none"))
